@@ -6,5 +6,6 @@ CONSTANTS
   KidsRoot = 0
   KidsRest = 0
   Schemes = {"ord"}
+  Homes = {"own"}
   CodeFixes = {}
 INVARIANT Verdict
